@@ -1348,6 +1348,342 @@ def run_rewritten(ctx):
             ctx.case(nontrivial_key=("S4", cls, size, nparts, own_val, other_val))
 
 # ------------------------------------------------------------------------------------------------
+# S5: Gaussian / Delta substitution vs the explicit formula (spec-only: beyond the Lean term model)
+# ------------------------------------------------------------------------------------------------
+
+from funsor.gaussian import Gaussian   # noqa: E402
+from funsor.delta import Delta         # noqa: E402
+from funsor.domains import Reals       # noqa: E402
+
+S5_HEADER = PY_HEADER + ("from funsor.gaussian import Gaussian\nfrom funsor.delta import Delta\n"
+                         "from funsor.domains import Reals\nfrom itertools import product\n")
+
+
+def _dy(rng, lo=-8, hi=8):
+    return rng.randrange(lo, hi + 1) / 4.0
+
+
+def _dyarr(rng, shape, lo=-8, hi=8):
+    n = int(np.prod(shape)) if shape else 1
+    return np.array([_dy(rng, lo, hi) for _ in range(n)], dtype=np.float64).reshape(shape)
+
+
+def _arr_py(a):
+    a = np.asarray(a)
+    return f"np.array({a.tolist()!r}, dtype=np.{a.dtype.name}).reshape({tuple(a.shape)!r})"
+
+
+class SVal5:
+    """A substitution value: funsor object, python source, oracle env -> ndarray, its inputs, exactness."""
+    def __init__(self, funsor_, py, fn, inputs, exact=True, kind=""):
+        self.f, self.py, self.fn, self.inputs, self.exact, self.kind = funsor_, py, fn, inputs, exact, kind
+
+
+def s5_real_value(rng, sh, batch_pool, kind):
+    """value for a real input of shape sh.  batch_pool: name -> size of int names a Tensor value may use."""
+    dom = f"Reals[{', '.join(map(str, sh))}]" if sh else "Real"
+    if kind == "array":
+        a = _dyarr(rng, sh)
+        return SVal5(Tensor(a), f"Tensor({_arr_py(a)})", lambda e, a=a: a, {}, kind="array")
+    if kind == "tensor":
+        names = [n for n in batch_pool if rng.random() < 0.6] or [rng.choice(list(batch_pool))]
+        bshape = tuple(batch_pool[n] for n in names)
+        a = _dyarr(rng, bshape + tuple(sh))
+        ins = ", ".join(f"({n!r}, Bint[{batch_pool[n]}])" for n in names)
+        return SVal5(Tensor(a, OrderedDict((n, Bint[batch_pool[n]]) for n in names)),
+                     f"Tensor({_arr_py(a)}, OrderedDict([{ins}]))",
+                     lambda e, a=a, names=names: a[tuple(e[n] for n in names)],
+                     {n: ("int", batch_pool[n]) for n in names}, kind="tensor")
+    new = rng.choice(["p", "q", "r"])
+    v = Variable(new, Reals[tuple(sh)] if sh else Real)
+    vpy = f"Variable({new!r}, {dom})"
+    if kind == "rename":
+        return SVal5(v, vpy, lambda e, new=new: np.asarray(e[new]), {new: ("real", tuple(sh))}, kind="rename")
+    if kind == "affine":
+        c, b = rng.choice([2.0, -1.0, 0.5]), _dy(rng)
+        return SVal5(v * c + b, f"({vpy} * {c} + {b})", lambda e, new=new, c=c, b=b: np.asarray(e[new]) * c + b,
+                     {new: ("real", tuple(sh))}, kind="affine")
+    if kind == "square":
+        return SVal5(v ** 2, f"({vpy} ** 2)", lambda e, new=new: np.asarray(e[new]) ** 2,
+                     {new: ("real", tuple(sh))}, kind="square")
+    if kind == "exp":
+        return SVal5(ops.exp(v), f"ops.exp({vpy})", lambda e, new=new: np.exp(np.asarray(e[new])),
+                     {new: ("real", tuple(sh))}, exact=False, kind="exp")
+    raise ValueError(kind)
+
+
+def s5_int_value(rng, size, kind):
+    if kind == "int":
+        n = rng.randrange(size)
+        return SVal5(Number(n, size), f"Number({n}, {size})", lambda e, n=n: n, {}, kind="int")
+    if kind == "rename":
+        new = rng.choice(["m", "n"])
+        return SVal5(Variable(new, Bint[size]), f"Variable({new!r}, Bint[{size}])", lambda e, new=new: e[new],
+                     {new: ("int", size)}, kind="int-rename")
+    new, k = "m", rng.choice([1, 2, 3])
+    a = np.array([rng.randrange(size) for _ in range(k)], dtype=np.int64)
+    return SVal5(Tensor(a, OrderedDict([(new, Bint[k])]), size), f"Tensor({_arr_py(a)}, OrderedDict([({new!r}, Bint[{k}])]), {size})",
+                 lambda e, a=a, new=new: int(a[e[new]]), {new: ("int", k)}, kind="int-tensor")
+
+
+def s5_free_points(rng, free):
+    """free: name -> ('int', size) | ('real', shape).  All int points x 2 sample points per real name (capped)."""
+    ints = [(n, d[1]) for n, d in free.items() if d[0] == "int"]
+    reals = [(n, d[1]) for n, d in free.items() if d[0] == "real"]
+    rpts = [dict((n, _dyarr(rng, sh, -6, 6)) for n, sh in reals) for _ in range(2 if reals else 1)]
+    out = []
+    for ip in itertools.product(*[range(sz) for _, sz in ints]):
+        for rp in rpts:
+            e = dict(zip([n for n, _ in ints], ip))
+            e.update(rp)
+            out.append(e)
+    return out[:24]
+
+
+def s5_eval(r, e):
+    """Value of the implementation's result at the point e (all its inputs bound)."""
+    if isinstance(r, Gaussian):
+        # straight from the parameters: -1/2 || x P - w ||^2 with x the real inputs in the result's own order
+        int_names = [k for k, d in r.inputs.items() if d.dtype != "real"]
+        idx = tuple(e[k] for k in int_names)
+        w = np.asarray(r.white_vec)
+        P = np.asarray(r.prec_sqrt)
+        w = np.broadcast_to(w, tuple(r.inputs[k].size for k in int_names) + w.shape[-1:])[idx]
+        P = np.broadcast_to(P, tuple(r.inputs[k].size for k in int_names) + P.shape[-2:])[idx]
+        x = np.concatenate([np.asarray(e[k], dtype=np.float64).reshape(-1) for k, d in r.inputs.items() if d.dtype == "real"])
+        res = x @ P - w
+        return -0.5 * float(res @ res)
+    kw = {k: (int(e[k]) if d.dtype != "real" else Tensor(np.asarray(e[k], dtype=np.float64))) for k, d in r.inputs.items()}
+    out = r(**kw) if kw else r
+    if not isinstance(out, (Tensor, Number)):
+        with eager:
+            out = reinterpret(out)
+    if out.inputs or not isinstance(out, (Tensor, Number)):
+        raise NotImplementedError("result did not evaluate to a number")
+    return float(np.asarray(out.data))
+
+
+def s5_close(a, b, exact):
+    if a == b or (np.isneginf(a) and np.isneginf(b)):
+        return True
+    if np.isinf(a) or np.isinf(b) or a != a or b != b:
+        return False
+    tol = 1e-12 if exact else 1e-9
+    return abs(a - b) <= tol * max(1.0, abs(a), abs(b))
+
+
+def s5_check(ctx, label, build_py, call_py, thunk, target_inputs, sigma, oracle_at, rng, wit, exact):
+    """Run one substitution route and compare with the oracle over the whole free space (ints) x sample reals."""
+    # expected inputs: target's unsubstituted inputs + inputs of the values
+    exp = OrderedDict((k, d) for k, d in target_inputs.items() if k not in sigma)
+    for k, v in sigma.items():
+        for n, d in v.inputs.items():
+            if exp.setdefault(n, d) != d:
+                ctx.count("S5:ill-typed")
+                return
+    try:
+        r = thunk()
+    except DECLINE as ex:
+        ctx.count(f"S5:{label}:declined:{type(ex).__name__}")
+        ctx.case()
+        return
+    py = S5_HEADER + build_py + f"r = {call_py}\nprint(r.inputs)\n"
+    bad = [k for k, d in r.inputs.items()
+           if k not in exp or (exp[k][0] == "int") != (d.dtype != "real")
+           or (exp[k][1] != (int(d.size) if d.dtype != "real" else tuple(d.shape)))]
+    if bad:
+        ctx.fail("input", f"C04.S5.{label}.inputs", witness=wit, expected=str(dict(exp)),
+                 got=str({k: str(d) for k, d in r.inputs.items()}), python=py + "FAILS = True\n")
+        return
+    pts = s5_free_points(rng, exp)
+    for e in pts:
+        want = oracle_at(e)
+        try:
+            got = s5_eval(r, e)
+        except DECLINE as ex:
+            ctx.count(f"S5:{label}:eval-declined:{type(ex).__name__}")
+            ctx.case()
+            return
+        if not s5_close(got, want, exact):
+            e_py = "{" + ", ".join(f"{k!r}: " + (repr(int(v)) if not isinstance(v, np.ndarray) else f"Tensor({_arr_py(v)})")
+                                   for k, v in e.items()) + "}"
+            ctx.fail("input", f"C04.S5.{label}.value", witness=dict(wit, point={k: np.asarray(v).tolist() for k, v in e.items()}),
+                     expected=want, got=got,
+                     python=py + f"point = {e_py}\nv = r(**{{k: x for k, x in point.items() if k in r.inputs}})\n"
+                                 f"print(v)\nFAILS = abs(float(np.asarray(v.data)) - ({want!r})) > 1e-9 * max(1.0, abs({want!r}))\n")
+            return
+    ctx.count(f"S5:{label}:ok")
+    ctx.case(nontrivial_key=("S5", label, repr(wit)))
+
+
+def s5_gaussian(ctx, rng):
+    reals = rng.sample(["x", "y", "z", "w"], rng.choice([2, 3, 3, 3, 4]))
+    shapes = {k: rng.choice([(), (), (), (1,), (2,)]) for k in reals}
+    batch = rng.sample(["i", "j"], rng.choice([0, 0, 1, 1, 2]))
+    bsz = {k: rng.choice([1, 2, 2, 3]) for k in batch}
+    D = sum(int(np.prod(shapes[k])) if shapes[k] else 1 for k in reals)
+    bshape = tuple(bsz[k] for k in batch)
+    w = _dyarr(rng, bshape + (D,))
+    P = _dyarr(rng, bshape + (D, D), -4, 4)
+    inputs = OrderedDict([(k, Bint[bsz[k]]) for k in batch] +
+                         [(k, Reals[shapes[k]] if shapes[k] else Real) for k in reals])
+    g = Gaussian(w, P, inputs)
+    if not isinstance(g, Gaussian):
+        return
+    ins_py = ", ".join([f"({k!r}, Bint[{bsz[k]}])" for k in batch] +
+                       [f"({k!r}, " + (f"Reals[{', '.join(map(str, shapes[k]))}]" if shapes[k] else "Real") + ")" for k in reals])
+    build_py = f"g = Gaussian({_arr_py(w)}, {_arr_py(P)}, OrderedDict([{ins_py}]))\n"
+    target_inputs = OrderedDict([(k, ("int", bsz[k])) for k in batch] + [(k, ("real", tuple(shapes[k]))) for k in reals])
+
+    def quad(vals, e):
+        idx = tuple(int(vals[k]) for k in batch)
+        x = np.concatenate([np.asarray(vals[k], dtype=np.float64).reshape(-1) for k in reals])
+        res = x @ P[idx] - w[idx]
+        return -0.5 * float(res @ res)
+
+    def oracle_for(sigma):
+        def at(e):
+            vals = {k: (sigma[k].fn(e) if k in sigma else e[k]) for k in list(batch) + list(reals)}
+            return quad(vals, e)
+        return at
+
+    pool = dict(bsz)
+    pool.setdefault("m", 2)
+    # ---------- single step, every order of the pairs, through g(**kw) and through a directly built Subs
+    sigma = OrderedDict()
+    n_ground = 0
+    for k in reals:
+        kind = rng.choice(["free", "array", "array", "array", "tensor", "rename", "affine", "square"])
+        if kind != "free":
+            sigma[k] = s5_real_value(rng, shapes[k], pool, kind)
+    for k in batch:
+        kind = rng.choice(["free", "free", "int", "rename", "tensor"])
+        if kind != "free":
+            sigma[k] = s5_int_value(rng, bsz[k], kind)
+    if sigma:
+        exact = all(v.exact for v in sigma.values())
+        wit = {"stream": "S5.gaussian", "reals": [(k, list(shapes[k])) for k in reals], "batch": [(k, bsz[k]) for k in batch],
+               "sigma": [(k, v.kind) for k, v in sigma.items()]}
+        keys = list(sigma)
+        perms = list(itertools.permutations(keys))
+        rng.shuffle(perms)
+        for perm in perms[:4]:
+            pairs_py = "(" + ", ".join(f"({k!r}, {sigma[k].py})" for k in perm) + ",)"
+            s5_check(ctx, "gaussian-Subs-permuted", build_py, f"Subs(g, {pairs_py})",
+                     lambda perm=perm: Subs(g, tuple((k, sigma[k].f) for k in perm)),
+                     target_inputs, sigma, oracle_for(sigma), rng, dict(wit, order=list(perm)), exact)
+        kw_py = "g(**{" + ", ".join(f"{k!r}: {sigma[k].py}" for k in keys) + "})"
+        s5_check(ctx, "gaussian-call", build_py, kw_py, lambda: g(**{k: v.f for k, v in sigma.items()}),
+                 target_inputs, sigma, oracle_for(sigma), rng, wit, exact)
+    # ---------- chained f(a)(b): a non-affine lazy first step, then grounding; versus fused
+    if len(reals) >= 2:
+        k0 = rng.choice(reals)
+        a = s5_real_value(rng, shapes[k0], pool, rng.choice(["square", "square", "exp"]))
+        u = list(a.inputs)[0]
+        others = [k for k in reals if k != k0]
+        ground = [k for k in others if rng.random() < 0.7] or [others[0]]
+        b = OrderedDict()
+        for k in ground:
+            b[k] = s5_real_value(rng, shapes[k], pool, rng.choice(["array", "array", "tensor"]))
+        b[u] = s5_real_value(rng, shapes[k0], pool, rng.choice(["array", "array", "tensor"]))
+        for k in batch:
+            if rng.random() < 0.3:
+                b[k] = s5_int_value(rng, bsz[k], "int")
+        border = list(b)
+        rng.shuffle(border)
+        # the composite, simultaneous substitution
+        comp = OrderedDict()
+        comp[k0] = SVal5(None, "", lambda e, a=a, bu=b[u], u=u: a.fn({u: bu.fn(e)}), dict(b[u].inputs), a.exact)
+        for k in border:
+            if k != u:
+                comp[k] = b[k]
+        wit = {"stream": "S5.gaussian-chain", "reals": [(k, list(shapes[k])) for k in reals], "batch": [(k, bsz[k]) for k in batch],
+               "first": [(k0, a.kind)], "then": [(k, b[k].kind) for k in border]}
+        b_py = "{" + ", ".join(f"{k!r}: {b[k].py}" for k in border) + "}"
+        s5_check(ctx, "gaussian-chained", build_py, f"g(**{{{k0!r}: {a.py}}})(**{b_py})",
+                 lambda: g(**{k0: a.f})(**{k: b[k].f for k in border}),
+                 target_inputs, comp, oracle_for(comp), rng, wit, a.exact)
+        # the fused substitution, built directly in the order eager_subs_subs produces and in the reverse order
+        fused_f = OrderedDict()
+        fused_f[k0] = (lambda: a.f(**{u: b[u].f}), f"({a.py})(**{{{u!r}: {b[u].py}}})")
+        for k in border:
+            if k != u:
+                fused_f[k] = (lambda k=k: b[k].f, b[k].py)
+        for name, order in (("fused", list(fused_f)), ("fused-reversed", list(fused_f)[::-1])):
+            pairs_py = "(" + ", ".join(f"({k!r}, {fused_f[k][1]})" for k in order) + ",)"
+            s5_check(ctx, f"gaussian-{name}", build_py, f"Subs(g, {pairs_py})",
+                     lambda order=order: Subs(g, tuple((k, fused_f[k][0]()) for k in order)),
+                     target_inputs, comp, oracle_for(comp), rng, dict(wit, order=order), a.exact)
+
+
+def s5_delta(ctx, rng):
+    sh = rng.choice([(), (), (2,)])
+    has_b = rng.random() < 0.7
+    n = rng.choice([2, 3]) if has_b else 1
+    pts = _dyarr(rng, ((n,) if has_b else ()) + tuple(sh), -2, 2)
+    ld = _dyarr(rng, (n,) if has_b else ())
+    bin_ = OrderedDict(i=Bint[n]) if has_b else OrderedDict()
+    bin_py = f"OrderedDict(i=Bint[{n}])" if has_b else "OrderedDict()"
+    d = Delta("v", Tensor(pts, bin_), Tensor(ld, bin_))
+    build_py = f"g = Delta('v', Tensor({_arr_py(pts)}, {bin_py}), Tensor({_arr_py(ld)}, {bin_py}))\n"
+    target_inputs = OrderedDict([("v", ("real", tuple(sh)))] + ([("i", ("int", n))] if has_b else []))
+
+    def oracle_for(sigma):
+        def at(e):
+            i = (sigma["i"].fn(e) if "i" in sigma else e["i"]) if has_b else None
+            v = np.asarray(sigma["v"].fn(e) if "v" in sigma else e["v"], dtype=np.float64)
+            p = pts[int(i)] if has_b else pts
+            l = ld[int(i)] if has_b else ld
+            return float(l) if np.array_equal(v, np.asarray(p)) else float("-inf")
+        return at
+
+    sigma = OrderedDict()
+    kind = rng.choice(["free", "hit", "hit", "miss", "tensor", "rename"])
+    pool = {"i": n} if has_b else {}
+    pool["m"] = 2
+    if kind in ("hit", "miss"):
+        a = np.array(pts[rng.randrange(n)] if has_b else pts, dtype=np.float64)
+        if kind == "miss":
+            a = a + 0.25
+        sigma["v"] = SVal5(Tensor(a), f"Tensor({_arr_py(a)})", lambda e, a=a: a, {}, kind=kind)
+    elif kind == "tensor":
+        names = ["m"] + (["i"] if has_b and rng.random() < 0.5 else [])
+        bshape = tuple(pool[x] for x in names)
+        a = np.zeros(bshape + tuple(sh))
+        for ix in itertools.product(*[range(s_) for s_ in bshape]):
+            a[ix] = (pts[rng.randrange(n)] if has_b else pts) + (0.25 if rng.random() < 0.3 else 0.0)
+        ins = ", ".join(f"({x!r}, Bint[{pool[x]}])" for x in names)
+        sigma["v"] = SVal5(Tensor(a, OrderedDict((x, Bint[pool[x]]) for x in names)), f"Tensor({_arr_py(a)}, OrderedDict([{ins}]))",
+                           lambda e, a=a, names=names: a[tuple(e[x] for x in names)], {x: ("int", pool[x]) for x in names},
+                           kind="tensor")
+    elif kind == "rename":
+        sigma["v"] = s5_real_value(rng, sh, pool, "rename")
+    if has_b:
+        kind_i = rng.choice(["free", "int", "rename"])
+        if kind_i != "free":
+            sigma["i"] = s5_int_value(rng, n, kind_i)
+    if not sigma:
+        return
+    wit = {"stream": "S5.delta", "shape": list(sh), "batch": n if has_b else 0, "sigma": [(k, v.kind) for k, v in sigma.items()]}
+    # free real points for a remaining `v`: include an exact hit
+    for perm in itertools.permutations(list(sigma)):
+        pairs_py = "(" + ", ".join(f"({k!r}, {sigma[k].py})" for k in perm) + ",)"
+        s5_check(ctx, "delta-Subs-permuted", build_py, f"Subs(g, {pairs_py})",
+                 lambda perm=perm: Subs(d, tuple((k, sigma[k].f) for k in perm)),
+                 target_inputs, sigma, oracle_for(sigma), rng, dict(wit, order=list(perm)), True)
+    s5_check(ctx, "delta-call", build_py, "g(**{" + ", ".join(f"{k!r}: {sigma[k].py}" for k in sigma) + "})",
+             lambda: d(**{k: v.f for k, v in sigma.items()}), target_inputs, sigma, oracle_for(sigma), rng, wit, True)
+
+
+def run_s5(ctx, n):
+    for _ in range(n):
+        if ctx.rng.random() < 0.8:
+            s5_gaussian(ctx, ctx.rng)
+        else:
+            s5_delta(ctx, ctx.rng)
+
+
+# ------------------------------------------------------------------------------------------------
 # entry points
 # ------------------------------------------------------------------------------------------------
 
@@ -1368,14 +1704,20 @@ def correspond(ctx):
     run_s3(ctx)
     run_s1(ctx)
     run_s2(ctx, 4000 if ctx.tier == "quick" else 60000)
+    run_s5(ctx, 500 if ctx.tier == "quick" else 8000)
+    ctx.extra["beyond_model_spec_only"] = ("stream S5 (Gaussian/Delta substitution) is compared with the explicit formula "
+                                           "-1/2||xP-w||^2 / point-mass in numpy only: exploration, not tied to a Lean model")
     ctx.assumptions.append("numpy basic/advanced indexing is modelled by its index-level specification (composition of index functions)")
-    ctx.assumptions.append("Gaussian/Delta/Independent/Scatter/MarkovProduct eager_subs are outside the C04 harness (Gaussian: C12; Delta: C14)")
+    ctx.assumptions.append("Gaussian/Delta eager_subs are checked against the explicit numpy formula only (stream S5, no Lean model: C12/C14 own those models); Independent/Scatter/MarkovProduct eager_subs are outside the C04 harness")
 
 
 def search(ctx, broken):
     """Python-side oracles only (works without Lean): S1 against numpy, S3 against python slicing at higher
     volume; S2 against a pointwise oracle (number substitution only)."""
     run_rewritten(ctx)
+    run_s5(ctx, 2000)
+    if any(f.witness is not None for f in ctx.failures):
+        return
     run_s3(ctx, use_lean=False)
     if any(f.witness is not None for f in ctx.failures):
         return
